@@ -79,6 +79,10 @@ def _nested_bad_filter(n: int) -> bytes:
 GARBAGE = [
     ("bad-outer-tag", lambda r: _tlv(0x04, b"\x00")),
     ("unknown-op", lambda r: _tlv(0x30, _tlv(2, b"\x01") + _tlv(0x6A, b""))),
+    # every APPLICATION number the library does not implement (modify .. abandon, intermediate response = 25, above), with a
+    # plausible body: a complete unit that must end in ProtocolError, never in silence
+    ("undefined-op-any", lambda r: _tlv(0x30, _tlv(2, bytes([r.randrange(1, 100)])) + _tlv(0x60 | r.choice((6, 7, 8, 9, 10, 11, 12, 13, 14, 15, 16, 20, 21, 22, 25, 25, 25, 26, 30)),
+                                                                                      r.choice((b"", _tlv(0x80, b"1.2.3") + _tlv(0x81, b"v"), _tlv(4, b"cn=x")))))),
     ("op-not-application", lambda r: _tlv(0x30, _tlv(2, b"\x01") + _tlv(0x04, b"x"))),
     ("interior-overrun", lambda r: _tlv(0x30, _tlv(2, b"\x01") + bytes([0x77, 0x05, 0x80, 0x01]))),
     ("zero-length-id", lambda r: _tlv(0x30, _tlv(2, b"") + _tlv(0x42, b""))),
@@ -103,8 +107,18 @@ def _huge_code(r: random.Random) -> bytes:
     return _tlv(0x30, _tlv(2, bytes([r.randrange(1, 4)])) + _tlv(op, _tlv(10, content) + _tlv(4, b"") + _tlv(4, r.choice((b"", b"diag")))))
 
 
+def _huge_id(r: random.Random) -> bytes:
+    """A well-formed response / request whose messageID has thousands of content octets (beyond the 4300-digit limit of
+    int -> str conversion, which error texts may run into)."""
+    n = r.choice((1800, 2500, 6000))
+    content = bytes([r.randrange(1, 128)]) + bytes(r.randrange(256) for _ in range(n))
+    op = r.choice((_tlv(0x78, _tlv(10, b"\x00") + _tlv(4, b"") + _tlv(4, b"")), _tlv(0x77, _tlv(0x80, b"1.2")), _tlv(0x65, _tlv(10, b"\x00") + _tlv(4, b"") + _tlv(4, b""))))
+    return _tlv(0x30, _tlv(2, content) + op)
+
+
 MAYBE = [
     ("deep-not-nesting", lambda r: _deep_not(r.choice((40, 400, 1200, 3000)))),
+    ("huge-message-id", _huge_id),
     ("huge-result-code", _huge_code),
 ]
 
@@ -196,7 +210,7 @@ def invoke(sess: t.Any, role: str, call: t.Dict[str, t.Any], rnd: random.Random)
             if k == "bindRespOk":
                 obs["ret"] = sess.bind_response(i, sasl_creds=msggen.r_opt_bytes(rnd), result_code=code, matched_dn=msggen.r_text(rnd) or None, controls=ctl)
             elif k == "bindRespProg":
-                obs["ret"] = sess.bind_response(i, sasl_creds=msggen.r_bytes(rnd), result_code=s.LDAPResultCode.SASL_BIND_IN_PROGRESS, controls=ctl)
+                obs["ret"] = sess.bind_response(i, sasl_creds=msggen.r_opt_bytes(rnd), result_code=s.LDAPResultCode.SASL_BIND_IN_PROGRESS, controls=ctl)
             elif k == "extResp":
                 obs["ret"] = sess.extended_response(i, name=None if rnd.random() < 0.5 else msggen.r_oid(rnd), value=msggen.r_opt_bytes(rnd), result_code=code, controls=ctl)
             elif k == "notice":
@@ -247,6 +261,8 @@ def compare(role: str, edge: t.Dict[str, t.Any], obs: t.Dict[str, t.Any]) -> t.L
         if got_res not in ("ok", "LDAPError", "ProtocolError"):
             prop = "C05" if op == "recv" else "C10"
             diffs.append((prop, f"foreign-exception/{role}/{op}/{got_res}", f"{where}: raised {obs['exc']} (library error types only)"))
+            if op == "recv" and role == "client" and exp_res == "ProtocolError" and not closed:
+                diffs.append(("C09", f"rejection-not-protocol-error/{got_res}", f"{where}: the response must be rejected with ProtocolError and the session closed; raised {obs['exc']}"))
         elif closed:
             diffs.append(("C08", f"closed-session-accepts/{role}/{op}", f"{where}: expected {exp_res}, got {got_res} on a CLOSED session"))
         elif op == "recv":
@@ -530,6 +546,24 @@ def replay_graph(rep: C.Report, role: str, edges: t.List[t.Dict[str, t.Any]], se
                 real[kd] = s
                 queue.append(kd)
     unreached = [k for k in bysrc if k not in real]
+    # ids whose content octets, read as an UNSIGNED number, are the id of an operation in progress (02 01 80 is -128, not 128):
+    # such a response names an id that was never issued
+    if base and role == "client":
+        for k, s0 in list(real.items()):
+            src = json.loads(k)
+            if src["st"] == "CLOSED":
+                continue
+            for i in src["out"]:
+                width = 1 if 128 <= i <= 255 else 2 if 32768 <= i <= 65535 else 0
+                if not width:
+                    continue
+                alias = i - 256 ** width
+                for kind in ("extResp", "done"):
+                    pe = {"src": src, "call": {"op": "recv", "ms": [{"k": kind, "id": alias}], "res": "ProtocolError", "emit": [], "ret": 0},
+                          "dst": {"st": "CLOSED", "out": [], "srch": [], "ctr": src["ctr"]}}
+                    s1 = copy.deepcopy(s0)
+                    for prop, sig, text in compare(role, pe, do_call(s1, role, pe["call"], rnd)):
+                        rep.violation(sig, text + " [a negative message id whose content octets equal those of an id in progress]", {"role": role, "edge": pe}, prop=prop)
     # phase 2: every edge, in parallel
     _G.update(role=role, bysrc=bysrc, real=real)
     nw = min(C.NCPU, max(1, len(edges) // 2000))
